@@ -1123,6 +1123,9 @@ impl<'a> Model<'a> {
     fn on_pubrel(&mut self, tr: usize, pid: u16, code: u8) {
         let fi = self.unresolved().find(|(_, f)| f.pid == pid && f.kind == FKind::Pub2).map(|(i, _)| i);
         let Some(fi) = fi else {
+            if self.flights.iter().any(|f| f.epoch < self.epoch && f.pid == pid && f.kind == FKind::Pub2 && matches!(f.phase, Phase::Released { .. })) {
+                self.bad("C05", "C05/discarded-packet-transmitted/PUBREL", format!("transport {tr}: PUBREL id {pid} belongs to an exchange of the previous broker session; the broker reported a fresh session, so it had to be discarded"));
+            }
             self.bad("C03", "C03/pubrel-without-exchange", format!("transport {tr}: PUBREL id {pid} but no QoS 2 exchange with that id is open"));
             return;
         };
